@@ -487,7 +487,11 @@ class TimeTriggeredPlanValidator(engines.engine.Engine, mixins.PlanValidatorMixi
 
         if not open_interval:
             yield before_time, trace[before_time]
-        if equal_time != before_time and equal_time != end:
+        # The state holding right after `start` (the last one created at or before
+        # `start`) is inside every interval that extends beyond `start`; when no
+        # effect happens exactly at `start` it is the state yielded above, which a
+        # left-open interval has not yielded.
+        if start != end and (open_interval or equal_time != before_time):
             yield equal_time, trace[equal_time]
         for x in inside_indexes:
             yield x, trace[x]
